@@ -8,6 +8,7 @@ package main
 import (
 	"fmt"
 	"math"
+	"strings"
 	"sync"
 
 	"github.com/DataDog/sketches-go/ddsketch/mapping"
@@ -18,9 +19,27 @@ type MappingSpec struct {
 	Alpha float64 `json:"alpha"`
 }
 
+// A Kind of the form "cubic@log" denotes the cubic mapping built with ...WithGamma(gamma, offset) where gamma and offset
+// are those of the LOGARITHMIC mapping built from Alpha: another kind with bit-identical parameters.
+
 func (ms MappingSpec) build() mapping.IndexMapping {
 	var m mapping.IndexMapping
 	var err error
+	if i := strings.Index(ms.Kind, "@"); i > 0 {
+		p := MappingSpec{Kind: ms.Kind[i+1:], Alpha: ms.Alpha}.build().ToProto()
+		switch ms.Kind[:i] {
+		case "log":
+			m, err = mapping.NewLogarithmicMappingWithGamma(p.Gamma, p.IndexOffset)
+		case "linear":
+			m, err = mapping.NewLinearlyInterpolatedMappingWithGamma(p.Gamma, p.IndexOffset)
+		default:
+			m, err = mapping.NewCubicallyInterpolatedMappingWithGamma(p.Gamma, p.IndexOffset)
+		}
+		if err != nil {
+			panic(fmt.Sprintf("mapping %v: %v", ms, err))
+		}
+		return m
+	}
 	switch ms.Kind {
 	case "log":
 		m, err = mapping.NewLogarithmicMapping(ms.Alpha)
